@@ -15,7 +15,7 @@ struct UserBuf {
     void *ptr() { return mem.data() + lead; }
 };
 struct PendingReq { bool live = false; int kind = 0; int reqid = NC_REQ_NULL; std::shared_ptr<UserBuf> ub; Access *acc = nullptr; int var = 0; int opidx = -1; int file = 0; };
-struct RankState { std::vector<int> ncid; std::vector<std::vector<PendingReq>> reqs; std::vector<std::vector<uint8_t>> abuf; };
+struct RankState { std::vector<int> closed_ids; std::vector<int> ncid; std::vector<std::vector<PendingReq>> reqs; std::vector<std::vector<uint8_t>> abuf; };
 struct Ctx {
     Program *p; RunOpts o; RunResult *res; int n;
     std::vector<RankState> rs;
@@ -163,11 +163,14 @@ struct Exec {
             // filetype relative to the variable's begin, etype = the variable's external type
             MPI_Datatype ft = MPI_DATATYPE_NULL; bool own = false;
             nc_type xt; int nd = 0; MPI_Offset recsize = 0; int unlim = -1; ncmpi_inq_varndims(ncid, op.var, &nd); std::vector<int> dimids(nd + 1);
-            ncmpi_inq_var(ncid, op.var, nullptr, &xt, &nd, dimids.data(), nullptr); ncmpi_inq_recsize(ncid, &recsize); ncmpi_inq_unlimdim(ncid, &unlim);
+            if (ncmpi_inq_var(ncid, op.var, nullptr, &xt, &nd, dimids.data(), nullptr) != NC_NOERR || xt < NC_BYTE || xt > NC_UINT64) { xt = NC_INT; n = 0; }
+            ncmpi_inq_recsize(ncid, &recsize); ncmpi_inq_unlimdim(ncid, &unlim);
             int xs = nc_type_size(xt); bool isrec = nd > 0 && dimids[0] == unlim;
             long long recelems = 1; for (int d = isrec ? 1 : 0; d < nd; d++) { MPI_Offset l; ncmpi_inq_dimlen(ncid, dimids[d], &l); recelems *= l; }
             if (n > 0) {
                 std::vector<int> bl((size_t)n, 1); std::vector<MPI_Aint> dp((size_t)n);
+                if ((long long)a.elems.size() < n) n = (long long)a.elems.size();
+                bl.resize((size_t)n); dp.resize((size_t)n);
                 for (long long k = 0; k < n; k++) { long long e = a.elems[(size_t)k]; dp[(size_t)k] = isrec ? (e / recelems) * recsize + (e % recelems) * xs : e * xs; }
                 static const MPI_Datatype xmpi[] = {0, MPI_SIGNED_CHAR, MPI_CHAR, MPI_SHORT, MPI_INT, MPI_FLOAT, MPI_DOUBLE, MPI_UNSIGNED_CHAR, MPI_UNSIGNED_SHORT, MPI_UNSIGNED, MPI_LONG_LONG_INT, MPI_UNSIGNED_LONG_LONG};
                 MPI_Type_create_hindexed((int)n, bl.data(), dp.data(), xmpi[xt], &ft); MPI_Type_commit(&ft); own = true;
@@ -239,6 +242,7 @@ struct Exec {
         if (!op.snap) return;
         const MFile &f = *op.snap; int ncid = me.ncid[op.file];
         int nd, nv, ng, ul;
+        if (!c.o.check_rc) { sim::set_in_lib(true); int rc0 = ncmpi_inq(ncid, &nd, &nv, &ng, &ul); sim::set_in_lib(false); c.res->rcs[r][opi].rc = rc0; c.res->rcs[r][opi].executed = true; return; }
         sim::set_in_lib(true);
         int rc = ncmpi_inq(ncid, &nd, &nv, &ng, &ul); rc_check(op, opi, rc, NC_NOERR, false);
         if (rc != NC_NOERR) { sim::set_in_lib(false); return; }
@@ -326,8 +330,8 @@ struct Exec {
             if (info != MPI_INFO_NULL) MPI_Info_free(&info);
             rc_check(op, opi, rc, exp_rc(op), op.rc_any); me.ncid[op.file] = rc == NC_NOERR ? ncid : -1; break;
         }
-        case OP_CLOSE: rc = lib([&] { return ncmpi_close(me.ncid[op.file]); }); rc_check(op, opi, rc, exp_rc(op), op.rc_any); me.ncid[op.file] = -1; drop_reqs(op.file); break;
-        case OP_ABORT: rc = lib([&] { return ncmpi_abort(me.ncid[op.file]); }); rc_check(op, opi, rc, exp_rc(op), op.rc_any); me.ncid[op.file] = -1; drop_reqs(op.file); break;
+        case OP_CLOSE: rc = lib([&] { return ncmpi_close(me.ncid[op.file]); }); rc_check(op, opi, rc, exp_rc(op), op.rc_any); me.closed_ids.push_back(me.ncid[op.file]); me.ncid[op.file] = -1; drop_reqs(op.file); break;
+        case OP_ABORT: rc = lib([&] { return ncmpi_abort(me.ncid[op.file]); }); rc_check(op, opi, rc, exp_rc(op), op.rc_any); me.closed_ids.push_back(me.ncid[op.file]); me.ncid[op.file] = -1; drop_reqs(op.file); break;
         case OP_REDEF: rc = lib([&] { return ncmpi_redef(me.ncid[op.file]); }); rc_check(op, opi, rc, exp_rc(op), op.rc_any); break;
         case OP_ENDDEF: rc = lib([&] { return ncmpi_enddef(me.ncid[op.file]); }); rc_check(op, opi, rc, exp_rc(op), op.rc_any); break;
         case OP_ENDDEF2: rc = lib([&] { return ncmpi__enddef(me.ncid[op.file], op.a[0], op.a[1], op.a[2], op.a[3]); }); rc_check(op, opi, rc, exp_rc(op), op.rc_any); break;
@@ -367,6 +371,39 @@ struct Exec {
         case OP_ATTACH: rc = lib([&] { return ncmpi_buffer_attach(me.ncid[op.file], op.a[0]); }); rc_check(op, opi, rc, exp_rc(op), op.rc_any); break;
         case OP_DETACH: rc = lib([&] { return ncmpi_buffer_detach(me.ncid[op.file]); }); rc_check(op, opi, rc, exp_rc(op), op.rc_any); break;
         case OP_INQ: do_inq(op, opi); break;
+        case OP_BADID: {
+            int id;
+            std::vector<int> open_ids; for (int x : me.ncid) if (x >= 0) open_ids.push_back(x);
+            auto is_open = [&](int x) { return std::find(open_ids.begin(), open_ids.end(), x) != open_ids.end(); };
+            switch (op.a[0] % 4) {
+            case 0: { id = -1; for (int x : me.closed_ids) if (!is_open(x)) id = x; if (id < 0) id = -7; break; }   // stale id of a closed file
+            case 1: id = -1 - (int)(op.a[2] % 5); break;
+            case 2: id = op.a[2] % 2 ? 1000000 : NC_MAX_NFILES + (int)(op.a[2] % 3); break;
+            default: { id = -3; for (int x = 0; x < 64; x++) if (!is_open(x)) { id = x; break; } break; }                 // in-range slot that is not open
+            }
+            int dummy = 0, v = 0; MPI_Offset st[8] = {0, 0, 0, 0, 0, 0, 0, 0}, ct[8] = {1, 1, 1, 1, 1, 1, 1, 1}; int req = NC_REQ_NULL, stt = 0;
+            rc = lib([&] {
+                switch (op.a[1] % 16) {
+                case 0: return ncmpi_inq(id, &dummy, &dummy, &dummy, &dummy);
+                case 1: return ncmpi_redef(id);
+                case 2: return ncmpi_enddef(id);
+                case 3: return ncmpi_sync(id);
+                case 4: return ncmpi_close(id);
+                case 5: return ncmpi_abort(id);
+                case 6: return ncmpi_inq_varid(id, "v0", &v);
+                case 7: return ncmpi_put_var1_int(id, 0, st, &dummy);
+                case 8: return ncmpi_get_vara_int_all(id, 0, st, ct, &dummy);
+                case 9: return ncmpi_wait_all(id, 1, &req, &stt);
+                case 10: return ncmpi_begin_indep_data(id);
+                case 11: return ncmpi_def_dim(id, "zz", 3, &v);
+                case 12: return ncmpi_put_att_int(id, NC_GLOBAL, "zz", NC_INT, 1, &dummy);
+                case 13: return ncmpi_iput_var1_int(id, 0, st, &dummy, &req);
+                case 14: return ncmpi_buffer_attach(id, 100);
+                default: return ncmpi_inq_unlimdim(id, &v);
+                }
+            });
+            rc_check(op, opi, rc, NC_EBADID, false); break;
+        }
         case OP_PUT: case OP_GET: do_data(op, opi); break;
         case OP_IPUT: case OP_IGET: case OP_BPUT: do_post(op, opi); break;
         case OP_WAIT: do_wait(op, opi, false); break;
